@@ -329,6 +329,67 @@ func ZZ_C06_QueueDrain() {
 	zzvf.Reach("queue-drain")
 }
 
+// Queue mode drained by SendAndClear in rounds while the first connection is lost at an arbitrary
+// byte offset of its first two frames (detected 0 / 5 / 50 bytes later): five rounds of three
+// accepted packs (concrete, increasing project codes so that the collector's view can be indexed).
+// Whatever is dropped around the loss, the whole frames the collector receives — over all
+// connections, in arrival order — are reference frames of accepted packs in ACCEPTANCE ORDER without
+// duplicates; after the reconnect only whole frames; the last round is delivered completely.
+//vf: paths=20000 fan=400
+func ZZ_C06_QueueFaults() {
+	znet.Reset()
+	const flen = 48
+	cut := zzvf.IntRange(0, 2*flen)
+	gap := []int{0, 5, 50}[zzvf.Choose(3)]
+	znet.Plan = []znet.Link{{Cut: cut, ErrAt: cut + gap}}
+	c := zz6Client(true, 20)
+	var frames [][]byte
+	var lastErr error
+	for r := 0; r < 5; r++ {
+		for i := 0; i < 3; i++ {
+			p := pack.NewTextPack()
+			p.Pcode, p.Oid, p.Time = int64(1000+len(frames)), zzvf.Int32(), zzvf.Int64()
+			rec := pack.TextRec{Div: zzvf.Byte(), Hash: zzvf.Int32(), Text: zzvf.String(1)}
+			p.AddText(rec)
+			body := zz6Cat([]byte{2}, zz6BE(uint64(p.Pcode), 2), zz6BE(uint64(p.Oid), 4), zz6BE(uint64(p.Time), 8),
+				[]byte{1, 1}, []byte{rec.Div}, zz6BE(uint64(rec.Hash), 4), []byte{1}, []byte(rec.Text))
+			payload := zz6Cat(zz6BE(0x0700, 2), body)
+			f := zz6Cat([]byte{10, 0}, zz6BE(uint64(p.Pcode), 8), zz6BE(uint64(whash.Hash64Str(zz6Lic)), 8), zz6BE(uint64(len(payload)), 4), payload)
+			zzvf.Assert(len(f) == flen, "queue-faults/frame-length-as-planned")
+			zzvf.Assert(c.Send(p) == nil, "queue-faults/accepted-while-there-is-room")
+			frames = append(frames, f)
+		}
+		lastErr = c.SendAndClear()
+	}
+	zzvf.Assert(lastErr == nil, "queue-faults/drain-succeeds-again-after-the-reconnect")
+	zzvf.Assert(len(znet.Links) == 2, "queue-faults/reconnected-exactly-once")
+	next := 0
+	inOrder, isRef, whole := true, true, true
+	delivered := make([]bool, len(frames))
+	for li, l := range znet.Links {
+		r := l.Rcvd
+		if li > 0 && len(r)%flen != 0 {
+			whole = false
+		}
+		for off := 0; off+flen <= len(r); off += flen {
+			idx := (int(r[off+8])<<8 | int(r[off+9])) - 1000 // project code, bytes 2..9 big-endian
+			if idx < next || idx >= len(frames) {
+				inOrder = false
+				continue
+			}
+			isRef = zzvf.And(isRef, zzvf.Same(r[off:off+flen], frames[idx]))
+			delivered[idx] = true
+			next = idx + 1
+		}
+	}
+	zzvf.Assert(inOrder, "queue-faults/frames-arrive-in-acceptance-order-without-duplicates")
+	zzvf.Assert(isRef, "queue-faults/every-whole-frame-is-the-reference-frame-of-its-pack")
+	zzvf.Assert(whole, "queue-faults/only-whole-frames-after-the-reconnect")
+	n := len(frames)
+	zzvf.Assert(delivered[n-1] && delivered[n-2] && delivered[n-3], "queue-faults/last-round-delivered-completely")
+	zzvf.Reach("queue-faults")
+}
+
 // A healthy connection stays usable across idle periods longer than the write timeout
 // (60 s): the write deadline is renewed for every write. Connection opened by the
 // constructor's Connect or by the first send; idle 0 / 61 s / 10 min between sends.
